@@ -213,3 +213,14 @@ func (c *KafkaCluster) StartMainLoop(k *FakeKafka, offsetC, metadataC, reaperC <
 
 // Stop is the module's real Stop (stops the tickers, closes the quit channel, waits for the loop).
 func (c *KafkaCluster) Stop() error { return c.m.VerifStop() }
+
+// ConfigureKafkaCluster runs the real Configure of a fresh cluster module on configRoot (viper). Configure may panic.
+func ConfigureKafkaCluster(app *protocol.ApplicationContext, name, configRoot string) *KafkaCluster {
+	return &KafkaCluster{m: cluster.VerifConfigureKafkaCluster(app, name, configRoot)}
+}
+
+// Settings reports the offset, topic and groups-reaper refresh intervals Configure left in the module.
+func (c *KafkaCluster) Settings() (int, int, int) { return c.m.VerifSettings() }
+
+// Start is the module's real Start: it connects to the configured servers, fetches once and starts the tickers and the main loop.
+func (c *KafkaCluster) Start() error { return c.m.Start() }
